@@ -648,6 +648,17 @@ def local_rule(run, f, rid_private, rid_map, rid_release):
             run.ok(rid_private, CO + "::new/fresh-local", "local: CoroutineLocal::default()")
         else:
             run.fail(rid_private, CO + "::new/fresh-local", cn.loc(), "a new coroutine must start with a fresh, private CoroutineLocal")
+    # the coroutine is the thread's current one exactly while it runs: init_current is undone on every exit of resume_with
+    rb = need(run, rid_private, f, CO + "::resume_with")
+    if rb is not None:
+        cfg = Cfg(rb)
+        ic = [x for (x, t) in find_calls(rb, callee_is(CO + "::init_current"))]
+        cc = [x for (x, t) in find_calls(rb, callee_is(CO + "::clean_current"))]
+        ok = len(ic) == 1 and cc and cfg.must_pass(cfg.after(ic[0]), cc)[0]
+        if ok:
+            run.ok(rid_private, CO + "::resume_with/current-paired", "init_current ... clean_current on every path to return")
+        else:
+            run.fail(rid_private, CO + "::resume_with/current-paired", rb.loc(), "resume_with can return while the coroutine is still registered as the thread's current coroutine: Coroutine::current() (and through it the local storage) then reaches a coroutine that is not running")
     # map-like
     for fn, leak, reb in ((L + "::put", True, True), (L + "::remove", False, True), (L + "::get", False, False)):
         b = need(run, rid_map, f, fn)
